@@ -52,7 +52,7 @@ func runParent(r *ev.Run) {
 		}
 	}
 	// ---- (2) free-running rounds on a real node ----
-	pats := []string{"same-output", "kv-ww", "kv-rw", "kv-rr", "disjoint", "select", "play", "walk", "walk-walk", "mixed", "balance-cold", "balance-cold"}
+	pats := []string{"same-output", "kv-ww", "kv-rw", "kv-rr", "disjoint", "select", "play", "walk", "walk-walk", "mixed", "balance-cold", "balance-cold", "reservation"}
 	per := r.N(25, 600)
 	batches := r.N(1, 4)
 	for b := 0; b < batches; b++ {
@@ -163,6 +163,7 @@ func runParent(r *ev.Run) {
 	raceReports(r)
 	r.Floor("rounds", 100)
 	r.Floor("rounds.with-overlapping-conflict", 30)
+	r.Floor("rounds.reservation", 15)
 	r.Floor("porcupine.ok", 60)
 	r.Floor("spin.acquired", 50000)
 	r.Floor("spin.refused", 1000)
